@@ -62,8 +62,15 @@ def _read(outfile, n_items):
     return outs
 
 
+def _size(path):
+    try:
+        return os.path.getsize(path)
+    except OSError:
+        return 0
+
+
 def run_parallel(module, func, items, opts=None, jobs=None, batch=None, per_item_s=20.0, min_timeout=240.0,
-                 retry_lost=True, progress=None):
+                 retry_lost=True, progress=None, stall_s=None):
     """-> list (same order as items) of outputs; an item whose worker died or timed out is a Lost marker.
     A harness error inside a worker raises RuntimeError here (a broken harness must not look like a pass)."""
     opts = opts or {}
@@ -85,13 +92,21 @@ def run_parallel(module, func, items, opts=None, jobs=None, batch=None, per_item
                 s, its = pending.pop()
                 p, outfile = _spawn(workdir, bn, module, func, its, opts)
                 bn += 1
-                running.append((p, outfile, s, its, time.time(), max(min_timeout, per_item_s * len(its))))
+                running.append([p, outfile, s, its, time.time(), max(min_timeout, per_item_s * len(its)), 0, time.time()])
             time.sleep(0.05)
             still = []
-            for p, outfile, s, its, t0, tmo in running:
+            stall = stall_s or max(240.0, per_item_s * 8)
+            for ent in running:
+                p, outfile, s, its, t0, tmo, last_size, last_change = ent
                 rc = p.poll()
-                if rc is None and time.time() - t0 < tmo:
-                    still.append((p, outfile, s, its, t0, tmo))
+                now = time.time()
+                sz = _size(outfile)
+                if sz != last_size:
+                    ent[6], ent[7] = sz, now
+                    last_change = now
+                # watchdog: overall batch budget, or no item finished for `stall` seconds (a hung pool, a deadlock)
+                if rc is None and now - t0 < tmo and now - last_change < stall:
+                    still.append(ent)
                     continue
                 why = None
                 if rc is None:
@@ -123,6 +138,6 @@ def run_parallel(module, func, items, opts=None, jobs=None, batch=None, per_item
                     results[k] = r
         return results
     finally:
-        for p, *_ in running if 'running' in dir() else []:
-            _kill(p)
+        for ent in (running if 'running' in dir() else []):
+            _kill(ent[0])
         shutil.rmtree(workdir, ignore_errors=True)
